@@ -340,6 +340,11 @@ class _ResourceOperations:
     def write_file(self, resource, contents: Union[str, FileContent]):
         data: FileContent
         if not isinstance(contents, bytes):
+            if resource.newlines is None and resource.exists():
+                # The newline convention of the file is not known yet (for
+                # instance for changes loaded from a saved history); find
+                # it out so that it is kept.
+                resource.read()
             data = rope.base.fscommands.unicode_to_file_data(
                 contents,
                 newlines=resource.newlines,
